@@ -8,7 +8,6 @@ from seqprop import audit, coverage
 LEVEL = "translation_validation"
 COQ_TARGETS = ("props/C01.vo",)
 THEOREMS = ['C01_write_point_read_partial', 'C01_gc_keeps_newest_partial']
-THEOREMS = []
 
 
 def programs(seed, n, nops):
